@@ -56,7 +56,7 @@ THEOREM_CLASSES = {
     "C11_heap_mem_invalid_realloc_reported": "corollary",
     "C11_heap_mem_payload_frame": "main", "C11_heap_mem_writes_aligned": "main", "C11_heap_geometry": "definitional",
     "C11_heap_deallocall_clears_iff_policy": "main", "C11_aligned_alloc_zero": "definitional",
-    "C11_gc_reregister_size": "main", "C11_gc_reregister_size_iff_policy": "main",
+    "C11_gc_reregister_size": "main", "C11_gc_reregister_size_iff_policy": "tripwire",
     "C11_heap_realloc_preserves": "main", "C11_heap_alloc0_zeroes": "definitional", "C11_heap_realloc0_zeroes": "definitional",
     "C11_iface_alloc0": "definitional", "C11_iface_xalloc": "definitional", "C11_iface_xrealloc": "definitional",
     "C11_iface_realloc0": "definitional", "C11_iface_spanalloc": "main", "C11_iface_spanrealloc": "definitional",
@@ -82,6 +82,7 @@ ASSUMPTIONS = [
     "clients write only inside blocks they own (frame condition of the stack/pool theorems). The heap's memory-level model has no client writes: C11_heap_mem_invalid_free_reported says that the ALLOCATOR never leaves a used mark (next=1, prev=NODE_COOKIE) anywhere but at chunk headers and the end node; a client that writes that 16-byte pattern into its own payload can still forge a header (inherent to a cookie test)",
     "the heap's header memory is word-addressed (address -> 64-bit word). C11_heap_mem_writes_aligned proves, for every configuration, that all written words are 8-aligned (hence pairwise equal or disjoint: the picture is exact for a byte-addressed memory); reads are header words of 16-aligned nodes, and reads through invalid client pointers are 8-aligned too because get_ptr_node refuses pointers that are not 16-aligned",
     "correspondence is differential testing over generated histories, not a proof that model = code",
+    "C11_gc_reregister_size assumes step_keeps: the collection that self:step() may run inside GC:reregister keeps the entry of the block being reallocated (a fact about property C10's collector - the block is referenced from the stack of realloc -, assumed here, not proved); the model covers the in-place branch only (no running flag, membytes accounting, root or moved branches). It is tied to the code by the scraped statement order and by the gc stream: for every in-place realloc observed, the extracted model - fed the item table reconstructed from the transcript and the observed survivors as its step - must predict the registered size the driver reads back",
     "checked (default) build: check()/bounds checks abort; release builds are not exercised",
 ]
 
@@ -96,6 +97,12 @@ def _need(rx, txt, what, flags=0):
     if not m:
         raise RuntimeError("C11 gen: cannot find %s" % what)
     return m
+
+
+def _strip_comments(src):
+    """Nelua source without --[[ ]] / --[=[ ]=] blocks and -- line comments (so that commented-out code cannot satisfy a scrape)."""
+    src = re.sub(r"--\[(=*)\[.*?\]\1\]", "", src, flags=re.S)
+    return re.sub(r"--[^\n]*", "", src)
 
 
 def gen(ctx):
@@ -142,15 +149,15 @@ def gen(ctx):
              "ALLOC_ALIGN", "MIN_ALLOC_SIZE", "BIN_COUNT", "BIN_MAX_LOOKUPS", "NODE_COOKIE", "HEAP_NODE_SIZE",
              "BIN_MIN_LOG", "BIN_CLZ_BASE"]
     # discriminator of repair 9ef0717: does HeapAllocatorT:deallocall walk the chunks and clear their used marks (and the end node's)?
-    dall = _need(r"function HeapAllocatorT:deallocall\(\): void(.*?)self\.initialized = false", heap, "HeapAllocatorT:deallocall", re.S).group(1)
+    dall = _need(r"function HeapAllocatorT:deallocall\(\): void(.*?)self\.initialized = false", _strip_comments(heap), "HeapAllocatorT:deallocall", re.S).group(1)
     walk = re.search(r"while\s+\(@usize\)\(node\)\s*<\s*heap_end\s+do(.*?)\n\s*end(.*)", dall, re.S)
     clears = bool(walk and re.search(r"node\.next\s*=\s*nilptr", walk.group(1)) and re.search(r"node\.prev\s*=\s*nilptr", walk.group(1))
                   and re.search(r"node\.next\s*=\s*nilptr", walk.group(2)) and re.search(r"node\.prev\s*=\s*nilptr", walk.group(2)))
     out["DEALLOCALL_CLEARS_MARKS"] = clears
     # statement order in GC:reregister, in-place branch: item.size is written BEFORE the first call that can run a collection (self:step()),
     # after which the item pointer obtained from items:peek may be stale (GC_rehash compacts the node array)
-    gcsrc = vlib.repo_read("lib/allocators/gc.nelua")
-    rr = _need(r"function GC:reregister\(.*?\n(.*?)\n  else -- moved", gcsrc, "GC:reregister in-place branch", re.S).group(1)
+    gcsrc = _strip_comments(vlib.repo_read("lib/allocators/gc.nelua"))
+    rr = _need(r"function GC:reregister\(.*?\n\s*if newptr == oldptr then\n(.*?)\n  else\b", gcsrc, "GC:reregister in-place branch", re.S).group(1)
     _need(r"self\.items:peek\(oldptr\)", rr, "items:peek in GC:reregister")
     wpos = re.search(r"item\.size\s*=\s*newsize", rr)
     spos = re.search(r"self:step\(\)|self:collect\(\)", rr)
@@ -963,6 +970,8 @@ class GcRunner:
         self.problems = []     # (what, detail, index of the line)
         self.next_h = 0
         self.inplace_grow_collect = 0
+        self.reg_no = 0
+        self.model_cases = []  # in-place reallocs as inputs of the extracted GcRereg model: (line index, model line, observed registered size)
 
     def bad(self, what, detail):
         self.problems.append((what, detail, len(self.lines) - 1))
@@ -999,7 +1008,8 @@ class GcRunner:
             else:
                 addr = int(rw[0])
                 self.check_block(h, addr, n, rw)
-                self.blocks[h] = {"addr": addr, "size": n, "slots": {}, "seed": None, "plen": 0}
+                self.reg_no += 1
+                self.blocks[h] = {"addr": addr, "size": n, "slots": {}, "seed": None, "plen": 0, "reg": self.reg_no}
                 if w[3] == "R":
                     self.roots[int(w[4])] = h
                 else:
@@ -1023,8 +1033,26 @@ class GcRunner:
                 self.bad("gc-alloc-failed", "realloc0(%d -> %d) returned nilptr" % (b["size"], n))
             else:
                 addr = int(rw[0])
+                before = {g: (x["addr"], x["size"], x["reg"]) for g, x in self.blocks.items()}
                 old = self.blocks.pop(h)
                 self.check_block(h, addr, n, rw)
+                if "ip=1" in rw:
+                    # the item table before the call: the garbage we hold no handle for first, then our blocks in registration order; the
+                    # collection inside step (if any) keeps what is still registered afterwards
+                    known = sorted(before.values(), key=lambda t: t[2])
+                    ng = max(0, self.items_before - len(known))
+                    gone = set(fins)
+                    surv = [a for g, (a, _, _) in before.items() if g not in gone]
+                    ng_after = max(0, min(ng, int(kv.get("items", "0")) - len(surv)))
+                    tbl = [(i + 1, 1) for i in range(ng)] + [(a, sz) for a, sz, _ in known]
+                    isz = [x[4:] for x in rw if x.startswith("isz=")]
+                    self.model_cases.append((len(self.lines) - 1,
+                                             "gcrereg %d %d T %s S %s" % (addr, n, " ".join("%d %d" % t for t in tbl),
+                                                                          " ".join(str(a) for a in [i + 1 for i in range(ng_after)] + surv)),
+                                             isz[0] if isz else "none"))
+                else:
+                    self.reg_no += 1
+                    old["reg"] = self.reg_no
                 old["slots"] = {o: g for o, g in old["slots"].items() if o + 8 <= n}
                 old.update(addr=addr, plen=min(old["plen"], n))
                 grew = n > old["size"]
@@ -1197,7 +1225,7 @@ def gc_history(R, rng, style, nops):
         verify_all()
 
 
-def run_gc_stream(ctx, work, stats):
+def run_gc_stream(ctx, work, stats, driver=None):
     src = os.path.join(vlib.VERIF, "harness", ID, "gcdriver.nelua")
     exe = os.path.join(work, "gcdriver-%s" % vlib.sha_files([src] + vlib.walk_files(os.path.join(vlib.REPO, "lib"), (".nelua",)) +
                                                           vlib.walk_files(os.path.join(vlib.REPO, "lualib"), (".lua",)))[:16])
@@ -1228,6 +1256,19 @@ def run_gc_stream(ctx, work, stats):
             if not R.problems:
                 raise
         R.proc.close()
+        if R.model_cases and driver:
+            rc, mo, me = vlib.sh([driver], input="\n".join(c[1] for c in R.model_cases) + "\n", timeout=600)
+            mlines = mo.split("\n")
+            out["model_reallocs"] = out.get("model_reallocs", 0) + len(R.model_cases)
+            for (at, ml, obs), got in zip(R.model_cases, mlines):
+                if got != obs:
+                    stats["model_mismatches"] += 1
+                    upto = [l for l, _ in R.lines[:at + 1]]
+                    ctx.violation("model-mismatch:gc-reregister:%s" % "; ".join(l for l in upto if l.split()[0] not in ("fill", "verify"))[-300:], "correspondence",
+                                  "GcRereg.v and the implementation disagree on the size registered after the in-place '%s': implementation %s, model %s" %
+                                  (R.lines[at][0], obs, got), detail={"ops": upto, "model_input": ml[:2000], "no_longer_checks": "correspondence stream C11/gc-reregister"},
+                                  failing_input=bool(R.problems))
+                    break
         out["histories"] += 1
         out["ops"] += len(R.lines)
         out["inplace_grow_with_collection"] += R.inplace_grow_collect
@@ -1371,7 +1412,7 @@ def correspond(ctx):
                                   "proposed_repair": "harness/C11/proposed_repairs/"})
 
     # ---- 1d. the GC allocator with collections enabled (allocator-contract view; the collector itself is property C10)
-    gcstats = run_gc_stream(ctx, work, stats)
+    gcstats = run_gc_stream(ctx, work, stats, driver)
     stats["ops"] += gcstats.get("ops", 0)
 
     # ---- 2. precondition-violating histories, one process each, outcome compared as an enum
@@ -1531,7 +1572,7 @@ UNPROVED = [
     "pool: pool_good has no alignment clause beyond 'is a chunk start' (the alignment of T inside the chunk union is the compiler's layout, property C03)",
     "AlignedAllocator: alignment arithmetic, single-step alloc spec and 'fits in a fresh good block of the arena in any reachable arena state' are proved; a history-level theorem over aligned alloc/dealloc/realloc (headers of live aligned blocks are never overwritten) is not; its default realloc's memory.move is not a contents theorem",
     "stack/pool: realloc never moves a block (it returns p or nil), contents preservation is therefore not stated separately",
-    "GeneralAllocator (libc) is outside the Coq models; the GC allocator's contract (aligned, registered with the requested size, disjoint while not finalized, contents preserved, reachable blocks never collected, membytes = sum of sizes) is TESTED on histories with collections enabled, not proved - only GC:reregister's in-place size update is a theorem (C11_gc_reregister_size, on a model in which the collection inside step is an arbitrary entry-preserving function); release builds (checks compiled out) are not exercised",
+    "GeneralAllocator (libc) is outside the Coq models; the GC allocator's contract (aligned, registered with the requested size, disjoint while not finalized, contents preserved, reachable blocks never collected, membytes = sum of sizes) is TESTED on histories with collections enabled, not proved - only GC:reregister's in-place size update is a theorem (C11_gc_reregister_size, partial: a deliberately tiny model - association list, the collection inside step an arbitrary function ASSUMED to keep the block's entry (step_keeps), running/membytes/root/moved branches left out; corresponded only on the registered size after in-place reallocs of the gc stream; C11_gc_reregister_size_iff_policy is a tripwire for the scraped statement order); release builds (checks compiled out) are not exercised",
     "NODE = 32 and ALLOC_ALIGN = 16 are literals in the proofs (NODE_eq / ALIGN_eq, 'mod 16' arithmetic): Gen.v regenerates them and the build fails if they change, but a change needs the proofs revisited. The bin tuning constants are parametric: get_bin_index_p_range holds for any BIN_MIN_LOG >= 0, BIN_COUNT > 0 with BIN_MIN_LOG + BIN_COUNT <= 32 and BIN_CLZ_BASE = 31 - BIN_MIN_LOG (side conditions re-checked by computation on the regenerated constants)",
 ]
 
